@@ -192,7 +192,7 @@ class ShardCtx:
         from pbt.guard import HangSuspected, wall_guard
 
         own_guard = getattr(importlib.import_module("pbt.props.%s" % self.prop.lower()), "OWN_GUARD", False)
-        case_timeout = int(os.environ.get("VERIF_CASE_TIMEOUT", "120"))
+        case_timeout = int(os.environ.get("VERIF_CASE_TIMEOUT", "60"))
         phases = [Phase.generate]
         if use_target:
             phases.append(Phase.target)
@@ -210,7 +210,9 @@ class ShardCtx:
         )
         @given(strategy)
         def test(case):
-            if own_guard:
+            if sum(v for k, v in col.aborted.items() if k.startswith("timeout") or "MemoryError" in k) >= 3:
+                out = Outcome(aborted="skipped-after-3-runaway-cases")
+            elif own_guard:
                 out = check_case(case)
             else:
                 try:
@@ -219,6 +221,12 @@ class ShardCtx:
                 except HangSuspected:
                     # a time budget hit is 'inconclusive', never a violation
                     out = Outcome(aborted="timeout>%ds" % case_timeout)
+                except MemoryError:
+                    out = Outcome(aborted="exception:MemoryError")
+            if out.aborted and (out.aborted.startswith("timeout") or "MemoryError" in out.aborted):
+                import gc
+
+                gc.collect()  # trees are cyclic: release a runaway case before the next draw
             col.add(sub, case, out)
             if out.violation and not out.known:
                 raise _Found()
@@ -230,9 +238,49 @@ class ShardCtx:
         except HarnessError:
             raise
         except Exception as e:  # an exception escaping the oracle is a harness bug
+            if self._degraded():
+                # a runaway case (timeout / MemoryError under the rlimit) left this worker short of
+                # memory; what was explored so far stands, the rest of this shard is inconclusive
+                col.notes.append("subcheck %s stopped early in shard %d after a runaway case: %s"
+                                 % (sub, self.shard, type(e).__name__))
+                return
             raise HarnessError(
                 "internal error in subcheck %s: %s\n%s" % (sub, e, traceback.format_exc())
             )
+
+    def drive_machine(self, sub, machine_cls, max_examples, steps=30):
+        """Run a RuleBasedStateMachine; the machine itself reports to the collector from
+        teardown() and raises _Found on a violation."""
+        from hypothesis import HealthCheck, Phase, seed, settings
+        from hypothesis.stateful import run_state_machine_as_test
+
+        st_settings = settings(
+            max_examples=max_examples,
+            stateful_step_count=steps,
+            database=None,
+            deadline=None,
+            derandomize=False,
+            report_multiple_bugs=False,
+            suppress_health_check=list(HealthCheck),
+            phases=[Phase.generate],
+        )
+        try:
+            run_state_machine_as_test(
+                seed(derive_seed(self.seed, self.prop, sub, self.shard))(machine_cls), settings=st_settings
+            )
+        except _Found:
+            pass
+        except HarnessError:
+            raise
+        except Exception as e:  # noqa: BLE001
+            if self._degraded():
+                self.col.notes.append("machine %s stopped early in shard %d after a runaway case: %s"
+                                      % (sub, self.shard, type(e).__name__))
+                return
+            raise HarnessError("internal error in machine %s: %s\n%s" % (sub, e, traceback.format_exc()))
+
+    def _degraded(self):
+        return any(k.startswith("timeout") or "MemoryError" in k for k in self.col.aborted)
 
     def enumerate(self, sub, cases, check_case, exhaustive_note=None):
         """Run an explicitly enumerated list of cases (this shard's slice)."""
@@ -252,6 +300,10 @@ class ShardCtx:
 def _worker(args):
     prop, tier, seed, shard, nshards = args
     try:
+        import resource
+
+        lim = int(float(os.environ.get("VERIF_MEM_GB", "3")) * 2 ** 30)
+        resource.setrlimit(resource.RLIMIT_AS, (lim, lim))
         setup_paths()
         mod = importlib.import_module("pbt.props.%s" % prop.lower())
         ctx = ShardCtx(prop, tier, seed, shard, nshards)
@@ -377,12 +429,16 @@ def run_check(prop, tier, seed):
         results = [_worker(args[0])]
     else:
         ctx = mp.get_context("fork")
-        with ctx.Pool(nshards) as pool:
+        with ctx.Pool(nshards, maxtasksperchild=1) as pool:
             results = pool.map(_worker, args, chunksize=1)
     errors = [r["error"] for r in results if not r["ok"]]
     if errors:
         sys.stderr.write("HARNESS ERROR in %s:\n%s\n" % (prop, errors[0]))
         return 2
+    if os.environ.get("VERIF_DEBUG"):
+        for i, r in enumerate(results):
+            d = r["data"]
+            print("shard", i, d["evaluations"], len(d["digests"]), d["rounds"], digest(d["digests"]))
     tot = _merge([r["data"] for r in results])
     tot.violations = reg_viol + tot.violations
     # one replay per distinct (subcheck family, clause)
